@@ -189,3 +189,4 @@ def run(ck):
               "malformed cookie text ends in an error, never in a parser that spins: every iteration of the attribute loop of Cookie::fromRaw "
               "and of the pair loop of CookieJar::addFromRaw definitely consumes input",
               key_pred=lambda k: "Cookie" in k, min_instances=2)
+    lib.no_stale_static_rule(ck, "C17-R5", ('cookie.cc',), "the cookie reader and writer")
